@@ -22,8 +22,10 @@ for d in "$SRC"/*/; do
       cvv) props="$props C11 C15";;
       tlv) props="$props C09 C10 C17 C18";;
       cvn) props="$props C08 C14 C16 C13";;
+      __init__) props="$props C01 C08 C09 C10";;
     esac
   done
+  [ -n "$props" ] || props="C01 C03 C08 C09 C10 C12"
   row=""
   for p in $(echo $props | tr ' ' '\n' | sort -u); do
     out=$(cd "$HERE" && PYEMV_REPO=$WT ./check "$p" --seed "${VERIF_SEED:-1}" 2>&1)
